@@ -83,4 +83,18 @@ def build():
          requires=[E('inmask', 'old(value).has(id)')],
          ensures=[E('item', '*r == old(value).val(id) && final(value).val(id) == *final(r)'),
                   E('only_own', '(forall|j: Index| #![trigger final(value).has(j)] final(value).has(j) == old(value).has(j)) && (forall|j: Index| #![trigger final(value).val(j)] j != id ==> final(value).val(j) == old(value).val(j))')])
+    # the NON-lending `&mut ChangeSet` member: through SharedGetMutOnly (under contract in unit join, N3)
+    JMH = "impl<'a, T> Join for &'a mut ChangeSet<T>"
+    u.fn(CS, [JMH, 'fn open'], ret='r', props='C16 C06', free='changeset_mut_j_open', key='j_changeset_mut::open',
+         rules=[('N12', r'fn open\(self\)', "fn open<'a, T>(self_: &'a mut ChangeSet<T>)"), ('N12', r'Self::Mask', "&'a BitSet"),
+                ('N12', r'Self::Value', "SharedGetMutOnly<'a, T, DenseVecStorage<T>>"), ('N12', r'\bself\b', 'self_')],
+         requires=[E('wf', 'old(self_).wf()')],
+         ensures=[E('mask', 'r.0@ == old(self_).mask@'), E('same_storage', '*r.1.0 == old(self_).inner'),
+                  E('pre', 'forall|id: Index| #![trigger r.1.0.has(id)] r.0@.contains(id) ==> r.1.0.has(id)')])
+    u.fn(CS, [JMH, 'fn get'], ret='r', props='C16 C06', free='changeset_mut_j_get', key='j_changeset_mut::get',
+         rules=[('N12', r"fn get\(", "fn get<'a, 'next, T>("), ('N3', r'value: &mut Self::Value', "value: &'next mut SharedGetMutOnly<'a, T, DenseVecStorage<T>>"),
+                ('N8', r'-> Self::Type', "-> &'next mut T")],
+         requires=[E('inmask', 'old(value).0.has(id)')],
+         ensures=[E('item', '*r == old(value).0.val(id) && final(value).0.val(id) == *final(r)'),
+                  E('only_own', '(forall|j: Index| #![trigger final(value).0.has(j)] final(value).0.has(j) == old(value).0.has(j)) && (forall|j: Index| #![trigger final(value).0.val(j)] j != id ==> final(value).0.val(j) == old(value).0.val(j))')])
     return u
